@@ -46,6 +46,9 @@ fn main() {
     }
     let code = engine::catch(|| match args[1].as_str() {
         "C02" => dispatch(&props::c02::P, &args),
+        "C03" => dispatch(&props::c03::P, &args),
+        "C11" => dispatch(&props::c11::P, &args),
+        "C15" => dispatch(&props::c15::P, &args),
         other => {
             eprintln!("unknown property {}", other);
             2
